@@ -67,12 +67,39 @@ def paths(node, env, out):
         paths(n, env, out)
 
 
+def const_call(n):
+    return not n.dyn_args and not n.dyn_kwargs and all(isinstance(a, N.Const) for a in n.args) and all(isinstance(k.value, N.Const) for k in n.kwargs)
+
+
+def const_repr(v):
+    return repr(v) if not isinstance(v, str) else "'%s'" % v
+
+
+def call_key(n):
+    return '%s(%s)' % (n.node.attr, ','.join([const_repr(a.value) for a in n.args] + ['%s=%s' % (k.key, const_repr(k.value.value)) for k in n.kwargs]))
+
+
+def get(obj, name):
+    """attribute, or the result of a method call spelled name(args) with constant arguments"""
+    if '(' in name:
+        import ast as _ast
+        fn, rest = name.split('(', 1)
+        call = _ast.parse('f(%s' % rest, mode='eval').body
+        args = [_ast.literal_eval(a) for a in call.args]
+        kwargs = {k.arg: _ast.literal_eval(k.value) for k in call.keywords}
+        return getattr(obj, fn)(*args, **kwargs)
+    return getattr(obj, name)
+
+
 def chain(node, env):
     if isinstance(node, N.Name):
         return list(env[node.name]) if node.name in env else None
     if isinstance(node, N.Getattr):
         b = chain(node.node, env)
         return None if b is None else b + [node.attr]
+    if isinstance(node, N.Call) and isinstance(node.node, N.Getattr) and const_call(node):
+        b = chain(node.node.node, env)
+        return None if b is None else b + [call_key(node)]
     if isinstance(node, N.Getitem) and not (isinstance(node.arg, N.Const) and isinstance(node.arg.value, str)):
         b = chain(node.node, env)          # list[i]: dump the whole list, the interpreter indexes it
         return None if b is None else b + ['[]']
@@ -96,7 +123,7 @@ def value(obj, path):
             return None
         return [value(x, path[1:]) for x in obj]
     try:
-        return value(getattr(obj, path[0]), path[1:])
+        return value(get(obj, path[0]), path[1:])
     except AttributeError:
         return {'__undef__': True}
 
@@ -120,7 +147,7 @@ def build(obj, plist):
         heads.setdefault(p[0], []).append(p[1:])
     for h, rest in heads.items():
         try:
-            sub = getattr(obj, h)
+            sub = get(obj, h)
         except AttributeError:
             out[h] = {'__undef__': True}
             continue
@@ -209,6 +236,8 @@ def unsupported(f):
     """constructs of a loop subtree that the TIR interpreter does not evaluate (calls of macros / methods, exotic loop attributes, ...)"""
     why = set()
     for n in f.find_all(N.Node):
+        if isinstance(n, N.Call) and isinstance(n.node, N.Getattr) and const_call(n):
+            continue
         if isinstance(n, (N.Call, N.CallBlock, N.Macro, N.Include, N.Import, N.FromImport)):
             why.add(type(n).__name__)
         if isinstance(n, N.Filter) and n.name not in SUPPORTED_FILTERS:
